@@ -6,7 +6,7 @@ GENERATORS = ['gen_codepage', 'gen_textfmt']
 COQ_TARGETS = ['Props/C15.vo', 'Run/RunC15.vo']
 PROPS_MODULE = 'Props.C15'
 THEOREMS = ['text_roundtrip', 'pcb_roundtrip', 'avt_roundtrip', 'ctrla_roundtrip', 'ren_roundtrip', 'asc_roundtrip',
-            'ata_roundtrip', 'line_length_meaning', 'ctrla_sync_all_pairs', 'layout', 'avatar_row_sync']
+            'ata_roundtrip', 'line_length_meaning', 'ctrla_sync_all_pairs', 'layout', 'avatar_row_sync', 'avatar_scan_fuel_suffices']
 SWEEP_LEMMAS = ['TextFormats.ctrla_sweep (Ctrl-A: all 16x8x16x8 (attribute in force, next attribute) pairs: the parser run over the emitted '
                 'N/H/E/I/colour letters ends in the next attribute with matching bold/high state)',
                 'TextFormats.pcb_code_sweep (PCBoard: 16x8 colours: HEX_TABLE digits -> conv_ch -> from_u8 gives the colours back)',
@@ -239,10 +239,13 @@ def check_roundtrip(fmt, rows, obs):
         if cls == 'sauce': return ('C15-sauce-lookalike', detail)
         return ('C15-%s-%s' % (fmt, kind), detail)
     if lw != w: return fail('width', 'loaded width %d' % lw)
+    # rows after the last non-empty one are dropped by crop_loaded_file (the property's pictures have none; the
+    # colour optimizer can create them by turning a last row of 0xFF cells into spaces)
+    heff = max([y + 1 for y in range(h) if line_length(rows[y], w) > 0] + [1])
     if fmt == 'ata':
-        if lc < h: return fail('height', 'loaded %d rows, saved %d' % (lc, h))
-    elif lc != h:
-        return fail('height', 'loaded %d rows, saved %d' % (lc, h))
+        if lc < heff: return fail('height', 'loaded %d rows, saved %d' % (lc, heff))
+    elif lc != heff and not (lc == 0 and all(line_length(r, w) == 0 for r in rows)):
+        return fail('height', 'loaded %d rows, saved %d' % (lc, heff))
     for y in range(lc):
         row = rows[y] if y < h else []
         L = line_length(row, w)
